@@ -162,6 +162,10 @@ pub enum Op {
     HsWrite { side: Side, plen: usize, cap: Cap },
     HsRead { side: Side, msg: Msg, cap: Cap },
     SetPsk { side: Side, loc: usize, klen: usize },
+    /// set_psk(loc, the honest psk of that location with bit `bit` flipped): a psk the peer does NOT hold.
+    /// The abstract model does not follow this op (its later expectations stay those of the honest session);
+    /// only checks that judge real outcomes directly (C08) use it.
+    SetPskAlt { side: Side, loc: usize, bit: u16 },
     ToTransport { side: Side },
     ToStateless { side: Side },
     /// HandshakeState::dangerously_get_raw_split (feature risky-raw-split)
@@ -191,6 +195,7 @@ impl Op {
             Op::HsWrite { side, .. }
             | Op::HsRead { side, .. }
             | Op::SetPsk { side, .. }
+            | Op::SetPskAlt { side, .. }
             | Op::ToTransport { side }
             | Op::ToStateless { side }
             | Op::RawSplit { side }
@@ -664,7 +669,7 @@ impl Exec {
         // system forbids it); it is skipped and recorded as such.
         let phase_ok = matches!(
             (&self.real[i], op),
-            (RealEnd::Hs(_), Op::HsWrite { .. } | Op::HsRead { .. } | Op::SetPsk { .. } | Op::ToTransport { .. } | Op::ToStateless { .. } | Op::RawSplit { .. } | Op::TryIntoTransport { .. } | Op::TryIntoStateless { .. })
+            (RealEnd::Hs(_), Op::HsWrite { .. } | Op::HsRead { .. } | Op::SetPsk { .. } | Op::SetPskAlt { .. } | Op::ToTransport { .. } | Op::ToStateless { .. } | Op::RawSplit { .. } | Op::TryIntoTransport { .. } | Op::TryIntoStateless { .. })
                 | (
                     RealEnd::T(_),
                     Op::TWrite { .. }
@@ -699,6 +704,23 @@ impl Exec {
             Op::HsWrite { plen, cap, .. } => self.do_hs_write(side, *plen, cap, &mut rec),
             Op::HsRead { msg, cap, .. } => self.do_hs_read(side, msg, cap, &mut rec),
             Op::SetPsk { loc, klen, .. } => self.do_set_psk(side, *loc, *klen, &mut rec),
+            Op::SetPskAlt { loc, bit, .. } => {
+                let mut key = psk_value_for(&self.cfg, *loc);
+                key[usize::from(*bit / 8) % 32] ^= 1 << (*bit % 8);
+                let RealEnd::Hs(h) = &mut self.real[i] else { unreachable!() };
+                rec.real = match catch_unwind(AssertUnwindSafe(|| h.set_psk(*loc, &key))) {
+                    Ok(Ok(())) => Real::Ok(0, vec![]),
+                    Ok(Err(e)) => Real::Err(classify(&e)),
+                    Err(p) => Real::Panic(panic_msg(p)),
+                };
+                rec.expect = Expect::Ok(None);
+                if rec.real.is_ok() {
+                    self.abs[i].psk_set[*loc] = true;
+                    if let Some(m) = &mut self.rhs[i] {
+                        m.psks[*loc] = Some(key);
+                    }
+                }
+            },
             Op::RawSplit { .. } => {
                 let r = {
                     let RealEnd::Hs(h) = &mut self.real[i] else { unreachable!() };
